@@ -9,6 +9,7 @@ echo "|---|---|---|---|" >> $OUT
 for d in seeded/*/; do
     id=$(basename $d)
     [ -f $d/patch.diff ] || continue
+    if grep -q '"superseded"' $d/meta.json; then echo "| $id | $(python3 -c "import json;print(json.load(open('$d/meta.json'))['property'])") | superseded (see meta.json) | |" >> $OUT; continue; fi
     prop=$(python3 -c "import json;print(json.load(open('$d/meta.json'))['property'])")
     log=/verif/target/matrix-$id.log
     VERIF_WATCHDOG_S=${VERIF_WATCHDOG_S:-15} timeout 1200 tools/run_mutant.sh /verif/$d/patch.diff $prop > $log 2>&1
